@@ -119,6 +119,7 @@ pub fn exercise(text: &str) -> Option<(String, String)> {
     if let Some(p) = run("search", &mut || {
         let _ = db.global_search("");
         let _ = db.global_search("a");
+        let _ = db.global_search("other t");
     }) {
         return Some(p);
     }
@@ -499,7 +500,7 @@ pub fn run(ctx: &Ctx, model: &mut Model, rep: &mut Report) {
             Err(e) => rep.fail(json!({"kind": "hang", "text": text, "what": e})),
         }
     }
-    for t in ["[self](n)\n", "[b](bare)\n", "intro\n\n[self](n)\n\n[b](bare)\n\n[o](other)\n", "- item\n\n  [self](n)\n\n> [b](bare)\n", "---\na: 1\n---\n\ntext\n\n---\nb: 2\n---\n\nmore\n", "---\na: 1\n---\n---\nb: 2\n---\n", "text\n\n---\nb: 2\n---\n\n---\nc: 3\n---\n", "\u{feff}---\na: 1\n---\n\n# T\n\n[x](other)\n", "> ---\n> a: b\n> ---\n", "- x\n\n  ---\n  t: 1\n  ---\n\n  y\n", "para\n\n---\nk: v\n---\n\ntail\n", "", "\n", "   ", "\r\n\r\n", "\u{feff}# bom\n", "---\n", "---\n---\n", "- \n", "> \n", "|\n", "#\n", "[", "]()", "[]()", "![]()", "``", "```", "<", "&#;", "\\", "a\\\nb", "\t- x", "1.\n2.\n"] {
+    for t in ["#\n\ntext\n", "# \n\n## Sub\n", "intro\n\n##\n\n# Title\n\n### \n", "# ![](i.png)\n\n# A\n", "[self](n)\n", "[b](bare)\n", "intro\n\n[self](n)\n\n[b](bare)\n\n[o](other)\n", "- item\n\n  [self](n)\n\n> [b](bare)\n", "---\na: 1\n---\n\ntext\n\n---\nb: 2\n---\n\nmore\n", "---\na: 1\n---\n---\nb: 2\n---\n", "text\n\n---\nb: 2\n---\n\n---\nc: 3\n---\n", "\u{feff}---\na: 1\n---\n\n# T\n\n[x](other)\n", "> ---\n> a: b\n> ---\n", "- x\n\n  ---\n  t: 1\n  ---\n\n  y\n", "para\n\n---\nk: v\n---\n\ntail\n", "", "\n", "   ", "\r\n\r\n", "\u{feff}# bom\n", "---\n", "---\n---\n", "- \n", "> \n", "|\n", "#\n", "[", "]()", "[]()", "![]()", "``", "```", "<", "&#;", "\\", "a\\\nb", "\t- x", "1.\n2.\n"] {
         rep.case(t, false);
         match exercise_with_deadline(t) {
             Ok(None) => {}
